@@ -90,6 +90,7 @@ func init() {
 		Run:        runC14,
 		Controls: []Control{
 			{Name: "precedence-shifted", File: "token/token.go", Old: "\tcase ADD, SUB, OR, XOR:\n\t\treturn 4\n\tcase MUL, QUO, REM, SHL, SHR, AND, AND_NOT:\n\t\treturn 5", New: "\tcase ADD, SUB, OR:\n\t\treturn 4\n\tcase MUL, QUO, REM, SHL, SHR, AND, AND_NOT, XOR:\n\t\treturn 5", Expect: "precedence/XOR"},
+			{Name: "slice-lit-keeps-level-raised", File: pp, Old: "\t\t\t\tsliceLit := p.parseSliceOrMatrixLit(lbrack, len)\n\t\t\t\tp.exprLev--\n", New: "\t\t\t\tsliceLit := p.parseSliceOrMatrixLit(lbrack, len)\n", Expect: "level-balance/parser.parseArrayTypeOrSliceLit"},
 			{Name: "unary-drops-arrow", File: pp, Old: "\tcase token.ARROW:\n\t\t// channel type or receive expression\n\t\tarrow := p.pos", New: "\tcase token.ILLEGAL:\n\t\t// channel type or receive expression\n\t\tarrow := p.pos", Expect: "dispatch/parseUnaryExpr ARROW"},
 			{Name: "call-args-at-outer-level", File: pp, Old: "func (p *parser) parseCallOrConversion(fun ast.Expr, isCmd bool) *ast.CallExpr {", New: "func (p *parser) parseCallOrConversion(fun ast.Expr, isCmd bool) *ast.CallExpr {\n\tp.exprLev--\n\tdefer func() { p.exprLev++ }()", Expect: "expr-level/parseCallOrConversion parserhs"},
 			{Name: "if-header-level-kept", File: pp, Old: "\t// p.tok != token.LBRACE\n\n\touter := p.exprLev\n\tp.exprLev = -1\n", New: "\t// p.tok != token.LBRACE\n\n\touter := p.exprLev\n", Expect: "expr-level/parseIfHeader parsesimplestmt"},
@@ -100,6 +101,9 @@ func init() {
 	})
 }
 
+// c14LevelReviewed: routines that leave exprLev changed on purpose.
+var c14LevelReviewed = map[string]string{}
+
 func runC14(c *core.Check) {
 	prog := c.Load("./parser", "go/parser", "./token", "go/token", "./scanner", "go/scanner")
 	x, g := prog.Pkg("./parser"), prog.Pkg("go/parser")
@@ -108,6 +112,10 @@ func runC14(c *core.Check) {
 		return
 	}
 	c.Trust("the Go 1.23.5 standard library sources of go/parser and go/token as the reference siblings")
+	// exprLev is restored by every routine that changes it (a raised level makes a later `{` a composite literal)
+	c.Analysed("exprLev_changing_routines", counterBalanceRule(c, x, "level-balance", "exprLev", c14LevelReviewed))
+	c.Floor("level-balance", 12)
+	c.Analysed("inRHS_changing_routines", counterBalanceRule(c, x, "rhs-flag-balance", "inRHS", map[string]string{}))
 
 	// ---------- (1) precedence tables
 	gp, xp := precTable(gt), precTable(xt)
